@@ -282,7 +282,7 @@ Ltac nats := change (Pos.to_nat 1) with 1%nat in *; change (Pos.to_nat 2) with 2
 Ltac lk := repeat match goal with H : lookup ?x ?e = _ |- context [lookup ?x ?e] => rewrite H; cbn end.
 Ltac dpairs := repeat match goal with p : (_ * _)%type |- _ => destruct p end.
 Ltac tie1 :=
-  dpairs; cbn; try unfold lift_fst; lk; nats;
+  dpairs; cbn; try unfold lift_fst; try (progress unfold test; cbn); lk; nats;
   repeat (progress rewrite ?len_map, ?len_nil, ?index_0, ?index_1, ?join_bytes_nil, ?repeat_list_0; cbn);
   rewrite ?to_bytes_le_eq, ?to_bytes_be_eq, ?app_nil_r, <- ?app_assoc; try reflexivity.
 Ltac tie := repeat (tie1; first [dbind | dif]); tie1.
